@@ -1227,6 +1227,12 @@ def _renorm_local(x: S) -> S:
         return mk_or([_truth(y) for y in x[1]])
     if t == "comp" and len(x) == 4:
         return ("comp", x[1], x[2], tuple((g[0], g[1], _truth(g[2])) for g in x[3]))
+    # an item of a conditional record: (A if c else B)[k] == A[k] if c else B[k]
+    if t in ("s", "proj") and isinstance(x[1], tuple) and x[1][:1] == ("ite",) and len(x[1]) == 4 \
+            and all(isinstance(arm, tuple) and arm[:1] in (("tuple",), ("list",)) and len(arm) == 2 for arm in x[1][2:4]):
+        k = x[2] if t == "proj" else (int(num_value(x[2])) if is_num(x[2]) and num_value(x[2]).denominator == 1 else None)
+        if isinstance(k, int) and all(-len(arm[1]) <= k < len(arm[1]) for arm in x[1][2:4]):
+            return mk_ite(x[1][1], x[1][2][1][k], x[1][3][1][k])
     if t == "proj" and len(x) == 4 and isinstance(x[2], int) and _plain_path(x[1]):
         return ("s", x[1], k_num(x[2]))        # a, b, c = seq  reads  seq[0], seq[1], seq[2]
     if t == "c" and len(x) == 4 and x[1] in (("g", "all"), ("g", "any")) and len(x[2]) == 1 and not x[3] and isinstance(x[2][0], tuple) \
@@ -2208,12 +2214,14 @@ def _if_convert(block: tuple) -> tuple:
                     k = len(a)
                     prev = out[-k:] if k <= len(out) else []
                     if len(prev) == k and only_sets(tuple(prev)) and {x[1] for x in prev} == set(a) and len({x[1] for x in prev}) == k \
-                            and not any(contains(st[1], x[1]) for x in prev):
+                            and (not any(contains(st[1], x[1]) for x in prev) or not any(_has_effectful_call(x[2]) for x in prev)):
                         d = arm_env(tuple(prev))
+                        # the test reads the value the local has at that point
+                        test = subst(st[1], d) if any(contains(st[1], w) for w in d) else st[1]
                         del out[-k:]
                         for x in prev:
                             v = x[1]
-                            out.append(("set", v, mk_ite(st[1], subst(a[v], d) if any(contains(a[v], w) for w in d) else a[v], d[v])))
+                            out.append(("set", v, mk_ite(test, subst(a[v], d) if any(contains(a[v], w) for w in d) else a[v], d[v])))
                         continue
             elif st[0] == "for" and len(st) == 5:
                 st = ("for", st[1], st[2], _if_convert(st[3]), _if_convert(st[4]))
